@@ -1915,6 +1915,11 @@ def same_exact(a, b):
 # product-space stream: ProductSpaceOperator / Broadcast / Reduction / Diagonal /
 # ComponentProjection(+Adjoint) vs the model
 
+WRAP_KINDS = ('bcast', 'red', 'diag')
+WRAP_BRANCHES = ['wrap/{}/{}'.format(k, m) for k in ('bcast', 'red') for m in ('oop', 'ip')] + \
+    ['wrap/diag/' + m for m in ('oop', 'ip', 'alias')]
+
+
 def build_pso(case, data):
     """Real product-space operator of a recorded case: (op, m, nc, entries string)."""
     import odl
@@ -2020,6 +2025,23 @@ def eval_pso(ctx, case, lines, pend):
     for mode in modes:
         lines.append('pso mode={} {}'.format(mode, base))
         pend.append((case, shape, mode, res[mode], xa[mode]))
+    if kind in WRAP_KINDS:
+        # round 4: the same case again with the OPERAND list only; the block list of the
+        # constructor and the identity wrapping of `_call` come from the model
+        # (`rowsFrom` / `colsFrom`, `broadcastO/I`, `reductionO/I`, `diagonalO/I`)
+        toks = {(i, j): t for i, j, t in case['blocks']}
+        k = max(m, nc)
+        pos = {'bcast': lambda t: (t, 0), 'red': lambda t: (0, t), 'diag': lambda t: (t, t)}[kind]
+        coo = op.ops if kind == 'diag' else op.prod_op.ops
+        order = list(zip([int(t) for t in coo.row], [int(t) for t in coo.col]))
+        if order != [pos(t) for t in range(k)]:
+            ctx.disagree(case, 'COO order of the blocks: {}'.format(order),
+                         'model: {}'.format([pos(t) for t in range(k)]), stream='wrap')
+        wbase = base.replace('kind={} '.format(kind), 'kind={}w ops={} '.format(
+            kind, '@'.join(toks[pos(t)] for t in range(k))), 1)
+        for mode in modes:
+            lines.append('pso mode={} {}'.format(mode, wbase))
+            pend.append((case, shape, 'wrap-' + mode, res[mode], xa[mode]))
 
 
 def run_pso(ctx, count):
@@ -2081,7 +2103,16 @@ def run_pso(ctx, count):
                  sample={'pso': shape, 'mode': mode, 'x': desc['x'],
                          'result': r.val.tolist() if r.status == 'ok' else r.status}
                  if desc['n'] == 1 and len(ctx.samples) < 12 else None)
-        ctx.hit('pso/{}/{}'.format(desc['class'], mode))
+        ctx.hit(('pso/{}/{}' if not mode.startswith('wrap-') else 'wrap/{}/{}').format(
+            desc['class'], mode.replace('wrap-', '')))
+        if mode.startswith('wrap-') and desc['class'] == 'red' and ans.startswith('ok '):
+            # identity of the returned object: `out` itself in place, a new object out of place
+            ret = int(ans.rsplit('ret=', 1)[1])
+            want_new = mode == 'wrap-oop'
+            if (ret >= desc['nc'] + desc['m']) != want_new or (not want_new and ret != desc['nc']):
+                ctx.disagree(d, 'returns {}'.format('a new object' if want_new else 'out itself'),
+                             'ret={}'.format(ret), stream='wrap')
+            ans = ans.rsplit(' ret=', 1)[0]
         if r.status != 'ok':
             if not ans.startswith(':'.join(r.status.split(':')[:2])):
                 ctx.disagree(d, r.status, ans[:100], stream='pso')
@@ -2813,7 +2844,7 @@ EXPECTED_BRANCHES = (
     ['argform/{}/{}'.format(c, o) for c, o, _, _ in argform_instances()] +
     ['layout/out-F', 'layout/out-strided', 'layout/x-F', 'size/large-2d', 'ownership/result'] +
     ['ownership/result/' + c for c in MODELLED if c != 'InnerProductOperator'] +
-    LEAF_BRANCHES)
+    LEAF_BRANCHES + WRAP_BRANCHES)
 
 
 def report_unhit(ctx):
